@@ -4,3 +4,4 @@ from . import math_c  # noqa: F401
 from . import mpu_c  # noqa: F401
 from . import tiles_c  # noqa: F401
 from . import geobox_c  # noqa: F401
+from . import gridspec_c  # noqa: F401
